@@ -356,5 +356,5 @@ pub fn subs() -> Vec<Box<dyn Sub>> {
         enum_exhaustive: false,
         eval: eval_seq,
     }),
-    Box::new(super::fuzzsub::FuzzSub { target: "fuzz_find", name: "fuzz-find", runs: 4_000_000, max_len: 12000 })]
+    Box::new(super::fuzzsub::FuzzSub { target: "fuzz_find", name: "fuzz-find", runs: 4_000_000, quick_runs: 300_000, max_len: 12000 })]
 }
